@@ -6,7 +6,7 @@ LEVEL = 'exploration'
 INCLUDE = spaces.C02_SIX + ['n_geos_max', 'n_pretest_max', 'n_designs']
 RULE = ('Engine A: complete enumeration of FULL(G<=3) (every eligibility matrix over 7 row types + absent row, x '
         'constraint subsets x n_geos_max) and DEV(4,d)/DEV(5,2) (<= d deviations incl. no matrix / extra matrix geo) '
-        'for both searches; REUSE: DEV(4,1|2) on a data object already used by another matched-markets object; every returned design judged from the RAW eligibility rows: non-empty disjoint groups of '
+        'for both searches; REUSE: DEV(4,1|2) on a data object already used by another matched-markets object; FLAT: a geo without any variation in its response (flat / all zero) under every row type x DEV(4,1); every returned design judged from the RAW eligibility rows: non-empty disjoint groups of '
         'data geos, t/c eligibility, every exclude=0 geo placed, must-exclude/absent geos never used; plus the '
         'documented rule for geos_within_constraints. Non-trivial = >= 1 design returned and (>= 1 non-free row or '
         'admitted set smaller than the data); distinct = distinct case.')
@@ -19,6 +19,17 @@ def cases(tier, seed):
     out = spaces.family_space(tier, seed, INCLUDE, {'n_designs': 3}, k_values=(1, 50))
     out += spaces.reuse_space({'name': 'B', 'G': 4, 'T': 12}, INCLUDE, {'n_designs': 3}, d=2 if tier == 'thorough' else 1)
     out += spaces.reuse2_space({'name': 'B', 'G': 4, 'T': 12}, {'n_designs': 3})
+    # a geo WITHOUT variation in its response (flat volume / all zeros) under every row type, plus one further deviation
+    for variant in ('flatlast', 'zerolast'):
+        p = {'name': 'B', 'G': 4, 'T': 12, 'variant': variant}
+        for r in spaces.ROW_ALTS + [(1, 1, 1)]:
+            if r is None:
+                continue
+            for c in spaces.with_methods(spaces.dev_configs(p, 1, INCLUDE, base_kw={'n_designs': 3}, k_values=(50,), with_matrix_level=False)):
+                if c['rows'][3] == [1, 1, 1] and spaces.precondition_ok(c):
+                    rows = [(list(x) if x is not None else None) for x in c['rows']]
+                    rows[3] = list(r)
+                    out.append(dict(c, rows=rows, deviations=c['deviations'] + 2))
     return out
 
 
